@@ -6,6 +6,7 @@ import (
 	"fmt"
 	"math/big"
 	"net/url"
+	"strconv"
 	"strings"
 	"unicode/utf8"
 
@@ -182,9 +183,33 @@ func genC01(r *rng, n int, emit func(string)) {
 			}
 		}
 	}
-	vals := []uint64{0, 1, 9, 10, 99, 100, 999999, 1000000, 99999999, 100000000, 999999999, 1000000000, 2147483647, 4294967295}
+	// values for the formatters (uint32): every power of ten with its neighbours and its multiples, every value a
+	// literal of the sources names (with neighbours), the small values exhaustively, the extremes, random ones
+	vals := []uint64{2147483647, 2147483648, 4294967295, 4294967294}
+	seenV := map[uint64]bool{}
+	addV := func(v uint64) {
+		if v <= 4294967295 && !seenV[v] {
+			seenV[v] = true
+			vals = append(vals, v)
+		}
+	}
+	for p := uint64(1); p <= 1000000000; p *= 10 {
+		for m := uint64(1); m <= 9; m++ {
+			addV(m * p)
+			addV(m*p - 1)
+			addV(m*p + 1)
+		}
+		addV(p + p/10)
+		addV(p*10 - p/10 - 1)
+	}
+	for _, v := range boundaryCounters {
+		addV(v)
+	}
+	for v := uint64(0); v <= 120; v++ {
+		addV(v)
+	}
 	for i := 0; i < 40; i++ {
-		vals = append(vals, r.next()>>uint(32+r.intn(32)))
+		addV(r.next() >> uint(32+r.intn(32)))
 	}
 	for d := -1; d <= 12; d++ {
 		for _, v := range vals {
@@ -272,8 +297,39 @@ func genC02(r *rng, n int, emit func(string)) {
 }
 
 // mutate a code string in the ways the property enumerates
+// numericAlias: another decimal string of the same length whose value differs from the code's by a power of two
+// (or by 10^k): what a comparison "as numbers" in a narrower or wrapping integer type would confuse with it
+func numericAlias(r *rng, code string) (string, bool) {
+	if len(code) == 0 || len(code) > 19 {
+		return "", false
+	}
+	v, err := strconv.ParseUint(code, 10, 64)
+	if err != nil {
+		return "", false
+	}
+	limit := uint64(1)
+	for i := 0; i < len(code); i++ {
+		limit *= 10
+	}
+	deltas := []uint64{1 << 32, 1 << 31, 1 << 16, 1 << 8, 1 << 33, 2 << 32, 1 << 24, 1 << 63}
+	for try := 0; try < 8; try++ {
+		d := deltas[r.intn(len(deltas))]
+		for _, w := range []uint64{v + d, v - d} {
+			if w < limit && w != v {
+				return fmt.Sprintf("%0*d", len(code), w), true
+			}
+		}
+	}
+	return "", false
+}
+
 func mutateCode(r *rng, code string) string {
 	b := []byte(code)
+	if r.chance(1, 6) {
+		if a, ok := numericAlias(r, code); ok {
+			return a
+		}
+	}
 	switch r.intn(11) {
 	case 9: // the right code followed by 256 or 512 more characters (length equal modulo 256)
 		return code + strings.Repeat(pick(r, []string{"0", "7", " "}), pick(r, []int{256, 512}))
@@ -370,7 +426,24 @@ func genC04(r *rng, n int, emit func(string)) {
 	genC04Rand(r, n, emit)
 }
 
+// instants around the epoch with small periods (uint64(t.Unix()) of an instant before the epoch is at the top of the
+// counter range), every window, a wrong code and the code of the step itself
+func genEpochEdge(emit func(string)) {
+	key := []byte("12345678901234567890")
+	sec := base32.StdEncoding.EncodeToString(key)
+	for _, per := range []uint64{1, 2, 30} {
+		for t := int64(-12); t <= 12; t++ {
+			for _, sk := range []uint{0, 1, 2, 5, 10, 11} {
+				p := &otp.Param{Digits: 6, Period: uint(per), Skew: sk, Algorithm: otp.SHA1}
+				emit(fmt.Sprintf("vtotp %s %s %d,0,0,0 %s", hxs(sec), hxs("000000"), t, fmtParam(p)))
+				emit(fmt.Sprintf("vtotp %s %s %d,0,0,0 %s", hxs(sec), hxs(refHOTP(key, uint64(t)/per, 6, 0)), t, fmtParam(p)))
+			}
+		}
+	}
+}
+
 func genC04Edge(emit func(string)) {
+	genEpochEdge(emit)
 	// the lower window edge, systematically: time steps at and around the skew, codes of every step from 0 to one
 	// past the upper edge
 	{
@@ -974,6 +1047,8 @@ func genC13(r *rng, n int, emit func(string)) {
 		emit(s)
 		emit("scan " + s)
 	}
+	genEpochEdge(emit)
+	genC03Edge(emit)
 	genC03Rand(r, n/3, both)
 	genC04Rand(r, n/3, both)
 	genC06(r, n/3, both)
